@@ -344,6 +344,8 @@ class CFGBuilder(AstVisitor[BB | None]):
             raise GuppyError(UnsupportedError(span, "`as` expression", singular=True))
 
         e = node.context_expr
+        if isinstance(e, ast.Call) and len(e.keywords) > 0:
+            raise GuppyError(UnsupportedError(e.keywords[0], "Keyword arguments"))
         modifier: Modifier
         match e:
             case ast.Name(id="dagger"):
@@ -691,6 +693,8 @@ def is_comptime_expression(node: ast.AST) -> ComptimeExpr | None:
         and isinstance(node.func, ast.Name)
         and node.func.id in ("py", "comptime")
     ):
+        if len(node.keywords) > 0:
+            raise GuppyError(UnsupportedError(node.keywords[0], "Keyword arguments"))
         match node.args:
             case []:
                 raise GuppyError(EmptyComptimeExprError(node))
